@@ -163,7 +163,14 @@ Op_FromSelection(positions, arrays, ids) ==
    out |-> UNION {{<<arrays[x][i], ids[x], positions[x][i]>> : i \in DOMAIN arrays[x]} : x \in DOMAIN arrays}]
 \* from_tables(tables)
 Op_FromTables(tables) == [oc |-> "ok", out |-> UNION {tables[x] : x \in DOMAIN tables}]
-\* from_positions(kmer_alphabet, {kmer: [[ref, pos], ..]}) and pickling are the identity on T
+\* from_positions(kmer_alphabet, {kmer: [[ref, pos], ..]}): `entries` is a sequence of
+\* <<kmer, rows>>, rows a sequence of <<ref id, position>> (an (n, 2) array); pickling is the identity on T
+Op_FromPositions(entries) ==
+  [oc |-> "ok",
+   out |-> UNION {{<<entries[x][1], entries[x][2][i][1], entries[x][2][i][2]>> : i \in DOMAIN entries[x][2]} : x \in DOMAIN entries}]
+\* the k-mer with a given code (inverse of KmerCode)
+KmerOfCode(c, A, k) == CHOOSE km \in AllKmers(A, k) : KmerCode(km, A) = c
+DecodeKmers(codes, A, k) == [i \in DOMAIN codes |-> KmerOfCode(codes[i], A, k)]
 
 (* ------------------------------------------------------------------ queries (declarative) *)
 \* table.match(sequence, similarity_rule, ignore_mask) -> rows (query pos, ref id, ref pos)
